@@ -23,6 +23,9 @@ MAX_UNROLL = 64
 MAX_DEPTH = 5
 
 
+REGISTRY = {}  # id(Program) -> interpreters created for it (cross-cutting rules read their events)
+
+
 class Event:
     def __init__(self, kind, name, args, kwargs, node, fn, guards, extra=None):
         self.kind = kind
@@ -93,6 +96,7 @@ class Interp:
         self.notes = []
         from . import lib
         self.lib = lib
+        REGISTRY.setdefault(id(prog), []).append(self)
 
     # ------------------------------------------------------------------ entry
     def run(self, qual, args=None, kwargs=None, self_obj=None):
